@@ -284,7 +284,9 @@ static void spreadCase(vh::Out &out, const std::string &id, vh::Rng &g, bool exa
 // inexact above 2^24), drift (one cell holding almost the whole demand of a bin whose total is just below a
 // power of two, followed in target order by demand-1 and demand-2 cells: the running share `dem` is rounded up
 // at every addition and ends well above 1 — before fixes/c06-spread-clamp.diff the last cells then landed
-// outside the bin, up to 24.9 units).  Limits up to 2^22 in magnitude.
+// outside the bin, up to 24.9 units), many (every 500th case: 32 769..34 768 or 65 537..70 036 cells in ONE bin that does
+// not contain the origin — more than a 15-/16-bit rank can count; direct oracle only, no model line: the list-based
+// Lean model needs minutes at that size).  Limits up to 2^22 in magnitude.
 // Direct oracle (theorem spreadF_inside_closed_bin / ubF_every_cell_inside): every positive-demand cell of a bin
 // gets a finite float in the CLOSED bin [lo, hi]; every cell in no bin gets a float in the placement area.
 // Counted: spreadf_coord_{strictly_inside,on_edge_of}_bin.
@@ -325,6 +327,20 @@ static void spreadFCase(vh::Out &out, const std::string &id, long long idx, vh::
     y0 = x0; H = W;  // same interval on both axes
     binSize = W + 1;
     indexTargets();
+  } else if (idx % 500 == 499) {
+    // more cells in ONE bin than a 15- or 16-bit index can count (a narrowed rank / index type inside spreadCells
+    // leaves the cells beyond the wrap unvisited); the bin does not contain the origin
+    family = "many";
+    oneBin = true;
+    n = g.chance(1, 3) ? 32768 + (int)g.range(1, 2000) : 65536 + (int)g.range(1, 4500);
+    x0 = (int)g.range(100, 5000); W = (int)g.range(1000, 1 << 16);
+    y0 = (int)g.range(-90000, -70000); H = (int)g.range(1000, 1 << 16);
+    binSize = std::max(W, H) + 1;
+    demand.resize(n);
+    for (int i = 0; i < n; ++i) demand[i] = (int)g.range(1, 3);
+    target.resize(n);
+    bool byIndex = g.chance(1, 3);
+    for (int i = 0; i < n; ++i) target[i] = byIndex ? (float)(n - i) : (float)(x0 + (double)W * (g.range(0, 1 << 20) / (double)(1 << 20)));
   } else {
     int fam = g.range(0, 9);
     family = fam < 3 ? "small" : (fam < 7 ? "mixed" : "drift");
@@ -422,11 +438,13 @@ static void spreadFCase(vh::Out &out, const std::string &id, long long idx, vh::
         op << " " << cellsOf[i][j].size();
         for (int c : cellsOf[i][j]) op << " " << c;
       }
-    out.ops << op.str() << "\n";
+    // family many is oracle-only: the list-based Lean model needs minutes for 70 000 cells
+    if (family != "many") out.ops << op.str() << "\n";
+    std::string failInput = family == "many" ? "case " + id + " (family many: " + std::to_string(n) + " cells in one bin; the op line is regenerated from the case id: h_C06 --only " + id + ")" : op.str();
     std::ostringstream im;
     im << "coordsf";
     for (int i = 0; i < n; ++i) im << " " << (std::isfinite(res[i]) ? dyadic(res[i]) : std::string("nan"));
-    out.impl << im.str() << "\n";
+    if (family != "many") out.impl << im.str() << "\n";
     double amin = axis == 0 ? pa.minX : pa.minY, amax = axis == 0 ? pa.maxX : pa.maxY;
     bool nt = false;
     std::vector<char> inBin(n, 0);
@@ -445,7 +463,7 @@ static void spreadFCase(vh::Out &out, const std::string &id, long long idx, vh::
             w << "spreadCoord" << (axis ? "Y" : "X") << ": cell " << c << " (demand " << demand[c] << ") of bin [" << lo << "," << hi
               << "] got " << dyadic(v) << " (mantissa exp2) = " << std::setprecision(12) << (double)v << ", outside the closed bin ("
               << bx * by << " bins, " << cellsOf[i][j].size() << " cells in this bin)";
-            out.fail(id, w.str(), op.str());
+            out.fail(id, w.str(), failInput);
           } else if (v > (float)lo && v < (float)hi) out.count("spreadf_coord_strictly_inside_bin");
           else out.count("spreadf_coord_on_edge_of_bin");
         }
@@ -456,7 +474,7 @@ static void spreadFCase(vh::Out &out, const std::string &id, long long idx, vh::
       out.count("spreadf_cells_in_no_bin");
       if (!(res[c] >= (float)amin && res[c] <= (float)amax))
         out.fail(id, std::string("spreadCoord") + (axis ? "Y" : "X") + ": cell " + std::to_string(c) + " (in no bin) got " + dyadic(res[c]) +
-                         " (mantissa exp2), outside the placement area", op.str());
+                         " (mantissa exp2), outside the placement area", failInput);
     }
     if (nt) out.nontrivial(vh::hashStr(op.str()));
   }
